@@ -8,7 +8,8 @@ use serde_json::json;
 
 /// Judge one (value, sink, capacity) triple against the Vec-with-capacity model.
 fn judge(r: &Report, sub: &str, ty: &str, val: &str, sink: &str, cap: usize, bytes: &[u8], out: &SinkOut) -> bool {
-    let case = || json!({"type": ty, "value": val, "sink": sink, "capacity": cap, "encoding_hex": hex(bytes)});
+    let case = || json!({"type": ty, "value": val, "sink": sink, "capacity": cap, "encoding_len": bytes.len(), "encoding_hex": hex(&bytes[..bytes.len().min(64)])});
+    let hex = |b: &[u8]| -> String { if b.len() <= 64 { hex(b) } else { format!("{}.. ({} bytes)", hex(&b[..64]), b.len()) } };
     if !out.canary_ok {
         r.fail(sub, None, case(), "bytes outside the sink were modified");
         return false;
@@ -103,6 +104,62 @@ fn values(r: &Report) {
         crate::hang_handler(r.property.clone()),
     );
     r.sample(sub, json!({"type": "(u8,String,bool)", "encoding_hex": "83006161f5", "capacity": 4, "sink": "Cursor<&mut [u8]>", "expected": "write error, position 3, sink = 830061"}));
+}
+
+/// Large values: the same sinks, capacities around the encoding length, io sinks accepting 1 byte .. everything per call.
+fn large(r: &Report) {
+    let sub = "large-values";
+    r.space(sub, true, "byte strings, text, integer arrays and a tuple holding a byte string of 65537, 131072, 131073 and 300017 elements x capacities {0, 1, len/2, len-1, len, len+1} x sinks {&mut [u8], Cursor<&mut [u8]>, Cursor<Box<[u8]>>, Writer<std::io::Write> accepting 1 / 4096 / 65536 / 100000 / 131072 / all bytes per call}", 2);
+    let count = large_values().len();
+    mcx::par::run_shards(
+        count,
+        |i| {
+            let (name, v) = large_values().swap_remove(i);
+            let name = &name;
+            let mut n = 0u64;
+            let mut ok = 0u64;
+            let mut succ = 0u64;
+            let bytes = match v.to_vec() {
+                Ok(b) => b,
+                Err(e) => {
+                    r.fail(sub, None, json!({"type": name}), format!("encoding into a Vec failed: {:?}", e));
+                    return;
+                }
+            };
+            let dbg = format!("{} elements, {} bytes encoded", v.debug().len().min(0) + bytes.len() / 2, bytes.len());
+            mcx::slot::case(name, &bytes[..32]);
+            let len = bytes.len();
+            for cap in [0usize, 1, len / 2, len - 1, len, len + 1] {
+                let outs = mcx::par::guard(|| {
+                    let mut outs: Vec<(&str, SinkOut)> = vec![("&mut [u8]", v.into_slice(cap)), ("Cursor<&mut [u8]>", v.into_cursor_slice(cap)), ("Cursor<Box<[u8]>>", v.into_cursor_box(cap))];
+                    for chunk in [1usize, 4096, 65536, 100_000, 131072, usize::MAX] {
+                        outs.push(("Writer<io>", v.into_io_writer(cap, chunk)));
+                    }
+                    outs
+                });
+                let outs = match outs {
+                    Ok(o) => o,
+                    Err(p) => {
+                        r.fail(sub, None, json!({"type": name, "capacity": cap, "encoding_len": len}), format!("encoding into a bounded sink panicked: {}", p));
+                        continue;
+                    }
+                };
+                for (sink, o) in &outs {
+                    n += 1;
+                    if o.res.is_ok() {
+                        succ += 1;
+                    }
+                    if judge(r, sub, name, &dbg, sink, cap, &bytes, o) {
+                        ok += 1;
+                    }
+                }
+            }
+            r.add(sub, n, ok);
+            r.outcome(sub, "fits", succ);
+            r.outcome(sub, "write error", n - succ);
+        },
+        crate::hang_handler(r.property.clone()),
+    );
 }
 
 // ---- raw write_all sequences -------------------------------------------------------------
@@ -284,6 +341,7 @@ fn sequences(r: &Report) {
 }
 
 pub fn run(r: &Report) {
+    large(r);
     values(r);
     sequences(r);
     // (not in the fallback build that `./check` makes when the generated derive definitions do not compile)
